@@ -410,7 +410,7 @@ def run(fx, chk, tier):
     c01_tables.run(fx, chk, cg, tw)
     # ---------------- R8 / R9: the demux half and the quantities stored by the mux half
     from packs_common import compose
-    chk.rule("R10", "a call the muxer rejects leaves no trace: in every function reachable from Mp4Writer::write_sample / add_track no rejection (a non-I/O Error being built, or a call that may reject) can follow a mutation of muxer state")
+    chk.rule("R11", "a call the muxer rejects leaves no trace: in every function reachable from Mp4Writer::write_sample / add_track no rejection (a non-I/O Error being built, or a call that may reject) can follow a mutation of muxer state")
     import c01_atomic
     import modsets
     roots = [ww["id"], at["id"]]
@@ -419,8 +419,8 @@ def run(fx, chk, tier):
     for comp in cg.sccs(clo_):
         cyc_.update(comp)
     nm_, nr_ = c01_atomic.run(fx, chk, modsets.compute(fx, cg.topo(clo_), cyc_), roots)
-    chk.floor("R10", "mutation sites in the muxer's accepting closure", nm_, 20)
-    chk.floor("R10", "rejection sites in the muxer's accepting closure", nr_, 3)
+    chk.floor("R11", "mutation sites in the muxer's accepting closure", nm_, 20)
+    chk.floor("R11", "rejection sites in the muxer's accepting closure", nr_, 3)
     chk.rule("R8", "the reader's non-fragmented lookup rules hold (C03 instances: absent-table defaults, count source, table footprints, dimension typing of the lookup arithmetic, purity)")
     compose(fx, chk, tier, "R8", "C03", ["R-DEFAULT", "R-COUNT", "R-FOOT", "R-UNITS", "R-PURE"], floor=105, what="reader lookup obligations")
     chk.rule("R9", "the muxer stores into every sample-table field the quantity ISO gives that field (C02 R7 instances, rules/units.py)")
